@@ -200,6 +200,15 @@ def c_inverse(case, ctx):
     _close(_gtm(sut(lambda: ti @ ta), "a.inv() @ a"), I, s, "a.inv() @ a vs identity")
     _close(_gtm(sut(lambda: ta @ ti), "a @ a.inv()"), I, s, "a @ a.inv() vs identity")
     _close(_gtm(sut(ti.inv), "a.inv().inv()"), A, s, "a.inv().inv() vs a")
+    # the inverse is a transform like any other: used as the REFERENCE of a frame conversion (which reads the
+    # six-vector, not the matrix) it must still act as inverse(A):  localToGlobal(a.inv(), a) = identity
+    Ai = O.inv(A)
+    if PI - O.angle(Ai[:3, :3]) >= 1e-3:
+        fsr = lib()["fsr"]
+        _close(_gtm(sut(fsr.localToGlobal, ti, ta), "localToGlobal(a.inv(), a)"), I, s,
+               "localToGlobal(a.inv(), a) vs identity")
+        _close(_gtm(sut(fsr.globalToLocal, ti, sut(lib()["tm"])), "globalToLocal(a.inv(), identity)"), A, s,
+               "globalToLocal(a.inv(), identity) vs a")
 
 
 def c_assoc(case, ctx):
@@ -415,9 +424,14 @@ _QS = st.one_of(st.sampled_from([1.0, -1.0, 2.0, -0.5, 1e-3, -1e3]), G.signed_lo
 
 
 _MODE = st.sampled_from(["rotvec", "rotvec", "euler"])
-_EANG = st.one_of(G.floats(-PI, PI), st.sampled_from([0.0, 1.0, -1.0, PI / 2, -PI / 2, 1e-7, 0.5]))
-_EB = st.one_of(G.floats(-PI / 2, PI / 2), st.sampled_from([PI / 2, -PI / 2, 0.0, math.nextafter(PI / 2, 0), 1.0,
-                                                           PI / 2 - 1e-7, -PI / 2 + 1e-5]))
+# ANY real triple (a, b, c) is a description of the pose Rx(a) Ry(b) Rz(c): angles are NOT confined to the principal
+# ranges a decomposition would return (|b| <= pi/2) -- a constructor that "normalises" the pitch must still mean
+# the same rotation
+_EANG = st.one_of(G.floats(-PI, PI), G.floats(-2 * PI, 2 * PI),
+                  st.sampled_from([0.0, 1.0, -1.0, PI / 2, -PI / 2, 1e-7, 0.5, PI, -PI, 4.0]))
+_EB = st.one_of(G.floats(-PI / 2, PI / 2), G.floats(-PI, PI), G.floats(-2 * PI, 2 * PI),
+                st.sampled_from([PI / 2, -PI / 2, 0.0, math.nextafter(PI / 2, 0), 1.0, PI / 2 - 1e-7, -PI / 2 + 1e-5,
+                                 2.0, -2.0, PI, 3 * PI / 2]))
 _POS = G.positions(1e3)
 _POSES = _poses()
 
